@@ -87,7 +87,9 @@ Choices(c, m) == {""} \cup {b[1] : b \in PMap(c, m)} \cup (AllPrefixes(c) \ {b[1
      Two statements of one node may have byte-identical text and still be written in different units, i.e. be
      two statements with two prefix scopes (a leaf's own when and the when of the uses that copies it).
      T : module in which the statement is textually written;  U, V as above
-     e : expression (index into the pool of its kind), pf : prefix per slot    *)
+     e : expression (index into the pool of its kind), pf : prefix per slot
+     sp : how the colon after a prefix is written ("" = `p:n`; l, r, lr = blanks around it)
+     mut : one character-level change that makes the argument invalid (none | trunc | del | ins | ctl | ctlcut)    *)
 Places(kind) == CASE kind = "must" -> {"direct", "grp-local", "grp-cross", "grp-chain", "grp-unused", "augment", "refine", "deviate-add"}
                   [] kind = "when" -> {"direct", "grp-local", "grp-cross", "grp-chain", "grp-unused", "augment", "when-uses", "when-augment"}
                   [] OTHER -> {"direct", "grp-local", "grp-cross", "grp-chain", "grp-unused", "augment", "typedef-local", "typedef-cross", "typedef-unused"}
